@@ -20,11 +20,11 @@ pub fn generate(rng: &mut Rng, tier: Tier, stats: &mut GenStats) -> Scenario {
     let has_links = tree.iter().any(|n| matches!(n.kind, Kind::Link { .. }));
     let mut walkers = Vec::new();
     for _ in 0..nw {
-        let base = g.pick_dir(&model, 35);
+        let base = g.pick_base(&model, 35, true);
         let link = if has_links && g.rng.chance(1, 2) { Link::ReadTarget } else { Link::ReadFile };
         let (mut expr, mut rooted) = ("**".to_string(), false);
         for _ in 0..6 {
-            let (e, r) = g.walk_glob(&model, &base, 2, true, &mut stats.rejections);
+            let (e, r) = g.walk_glob(&model, &base, if model.is_dir_node(&base) { 2 } else { 0 }, true, &mut stats.rejections);
             if !prefix_touches_link(&model, &base, &e, r) {
                 expr = e;
                 rooted = r;
